@@ -1,5 +1,6 @@
 // LOAD world (C17, C10): loaders and parsers behind the simulated file store.  DESIGN.md section 6.
 #include "dec.h"
+#include <set>
 #include <algorithm>
 #include <cmath>
 
@@ -611,7 +612,14 @@ struct LoadWorld : World {
                         critical.push_back(plan_with("en", { fault("en", file, "set_i32", off, v) }, "init", lda));
             }
             int64_t n = (int64_t)b.size();
-            for (int64_t c : { (int64_t)0, (int64_t)1, (int64_t)2, (int64_t)3, n - 1, n - 2, n - 4, n - 5 })
+            std::set<int64_t> cuts = { 0, 1, 2, 3, n - 1, n - 2, n - 4, n - 5 };
+            // files with a text header: every cut inside the header and the byte-order word after it (a header parser
+            // works in passes that must agree on where the header ends)
+            size_t eh = b.find("endhdr");
+            if (eh != std::string::npos && eh < 4096)
+                for (int64_t c = 0; c <= (int64_t)eh + 6 + 1 + 8; ++c)
+                    cuts.insert(c);
+            for (int64_t c : cuts)
                 if (c >= 0 && c < n)
                     critical.push_back(plan_with("en", { fault("en", file, "truncate", c, 0) }, "init", lda));
         }
